@@ -3,21 +3,37 @@ import json
 import os
 
 
-def cfg_text(start, ver, maxfree, ts="{1}", iddesc="FALSE", forkfrom=5, triples="TRUE", dishonest="FALSE", maxbad=1, addl="{}"):
+def cfg_text(start, ver, maxfree, ts="{1}", iddesc="FALSE", forkfrom=5, triples="TRUE", dishonest="FALSE", maxbad=1, addl="{}",
+             spells='{"int"}', pads="{}"):
     return ("SPECIFICATION Spec\nCONSTANTS\n  Start = %d\n  Ver = \"%s\"\n  MaxFree = %d\n  ForkFrom = %d\n"
-            "  TSChoices = %s\n  IdDesc = %s\n  Triples = %s\n  Dishonest = %s\n  MaxBad = %d\n  Addl = %s\nINVARIANTS Emit\nCHECK_DEADLOCK FALSE\n"
-            % (start, ver, maxfree, forkfrom, ts, iddesc, triples, dishonest, maxbad, addl))
+            "  TSChoices = %s\n  IdDesc = %s\n  Triples = %s\n  Dishonest = %s\n  MaxBad = %d\n  Addl = %s\n"
+            "  SpellSet = %s\n  PadTypes = %s\n  Spells <- GenSpells\nINVARIANTS Emit\nCHECK_DEADLOCK FALSE\n"
+            % (start, ver, maxfree, forkfrom, ts, iddesc, triples, dishonest, maxbad, addl, spells, pads))
 
 
-def plans(tier):
-    """(start, version, MaxFree, TSChoices, IdDesc, Triples, Dishonest[, ForkFrom]) per TLC run."""
+ALL_PADS = '{"create", "pl", "jr"}'
+ALL_SPELLS = '{"int", "str", "strpad", "float", "frac"}'
+
+
+def plans(tier, seed=1):
+    """(start, version, MaxFree, TSChoices, IdDesc, Triples, Dishonest[, ForkFrom[, Addl[, SpellSet[, PadTypes]]]]) per TLC run.
+    SpellSet: how the power-levels events of the run's rooms write their levels (default: integers only); PadTypes: the
+    event types for which TLC checks StateRes!PadNeutral on every query of the run (the harness pads the queries of
+    every run)."""
     if tier == "quick":
         return [(3, "10", 2, "{1}", "FALSE", "FALSE", "FALSE"), (3, "12", 2, "{1}", "FALSE", "FALSE", "FALSE"),
                 (1, "10", 2, "{1}", "FALSE", "TRUE", "FALSE"), (1, "12", 2, "{1}", "TRUE", "FALSE", "FALSE"),
                 (1, "1", 2, "{1}", "FALSE", "FALSE", "FALSE"),
                 (1, "2", 2, "{1}", "TRUE", "FALSE", "FALSE"),   # the one version with sender-chosen event IDs and algorithm v2
-                (2, "10", 1, "{1, 2}", "TRUE", "FALSE", "FALSE"), (2, "12", 1, "{1, 2}", "FALSE", "FALSE", "FALSE"),
-                (2, "1", 1, "{1}", "TRUE", "FALSE", "FALSE"),
+                (2, "10", 1, "{1, 2}", "TRUE", "FALSE", "FALSE", None, "{}", '{"int"}', ALL_PADS),
+                (2, "12", 1, "{1, 2}", "FALSE", "FALSE", "FALSE", None, "{}", '{"int"}', ALL_PADS),
+                (2, "1", 1, "{1}", "TRUE", "FALSE", "FALSE", None, "{}", '{"int"}', ALL_PADS),
+                # levels written as strings / floats (room versions 1-9 read them; 6: algorithm v2, hashed event IDs):
+                # bob (50, through an entry) and the creator (100) send two events on top of the prefix, whose
+                # power-levels event is written with strings or padded strings (floats: no canonical JSON, versions 1-5
+                # only - thorough tier and the recorder); every reader of a level - the auth rules and the sender power
+                # of the power ordering - must read what the version reads
+                (2, "6", 2, "{1}", "FALSE", "FALSE", "FALSE", 8, "{}", '{"str", "strpad"}'),
                 # dishonest servers: events their own state does not allow sit in the branches
                 (2, "1", 1, "{1}", "FALSE", "TRUE", "TRUE"), (2, "1", 1, "{1}", "TRUE", "TRUE", "TRUE"),
                 (2, "10", 1, "{1}", "TRUE", "TRUE", "TRUE"), (2, "12", 1, "{1}", "FALSE", "TRUE", "TRUE"),
@@ -74,7 +90,62 @@ def plans(tier):
     out.append((7, "1", 2, "{1}", "FALSE", "TRUE", "FALSE", 10))
     out.append((6, "1", 2, "{1}", "TRUE", "FALSE", "FALSE", 8))
     out.append((7, "10", 2, "{1}", "TRUE", "FALSE", "TRUE", 10))
+    # levels of the power-levels events written as strings / padded strings / floats (room versions 1-9), also mixed
+    # with integer-spelled events sent later; one plan per algorithm and event format that admits them
+    out.append((2, "2", 2, "{1}", "TRUE", "FALSE", "FALSE", 8, "{}", ALL_SPELLS))
+    out.append((2, "6", 2, "{1, 2}", "FALSE", "FALSE", "FALSE", 8, "{}", ALL_SPELLS))
+    out.append((4, "9", 2, "{1}", "TRUE", "FALSE", "FALSE", 8, "{}", '{"str", "strpad"}'))     # ... levels held through users_default
+    out.append((4, "2", 2, "{1}", "FALSE", "FALSE", "FALSE", 8, "{}", '{"float", "frac"}'))
+    out.append((2, "1", 2, "{1}", "FALSE", "FALSE", "FALSE", 8, "{}", '{"strpad", "float"}'))
+    out.append((2, "6", 1, "{1}", "TRUE", "TRUE", "TRUE", None, "{}", '{"str", "strpad"}'))    # ... and dishonest power events
+    out.append((2, "10", 1, "{1}", "FALSE", "FALSE", "FALSE", None, "{}", ALL_SPELLS))          # integer-only version: must change nothing
+    # StateRes!PadNeutral checked by TLC (an event of a control type under a key of its own in every state set)
+    for ver in ["1", "2", "10", "12"]:
+        out.append((2, ver, 1, "{1}", "FALSE", "TRUE", "FALSE", None, "{}", '{"int"}', ALL_PADS))
+    out.append((7, "10", 1, "{1}", "FALSE", "FALSE", "FALSE", 10, "{}", '{"int"}', ALL_PADS))
     return out
+
+
+class _Cached:
+    pass
+
+
+def _tlc(ctx, cfg, **kw):
+    """ctx.tlc("Room_gen", cfg), or - only when the developer sets VERIF_ROOM_CACHE=<dir> - the records of an earlier,
+    successful run of TLC on byte-identical modules and configuration (C10 and C11 replay the same queries, and so do
+    the seeds of one tier: re-running TLC for each is most of the wall time of a development cycle).  Never used
+    unless asked for; a run that used it says so in its log and in its TLC statistics."""
+    import hashlib
+    import pickle
+    cdir = os.environ.get("VERIF_ROOM_CACHE")
+    if not cdir:
+        return ctx.tlc("Room_gen", cfg, **kw)
+    d = ctx._spec_dir()
+    h = hashlib.sha1()
+    for name in sorted(os.listdir(d)):
+        if name.endswith(".tla") or name == cfg:
+            with open(os.path.join(d, name), "rb") as f:
+                h.update(name.encode() if name != cfg else b"cfg")
+                h.update(f.read())
+    path = os.path.join(cdir, h.hexdigest() + ".pickle")
+    if os.path.exists(path):
+        with open(path, "rb") as f:
+            c = pickle.load(f)
+        r = _Cached()
+        r.records, r.generated, r.distinct = c["records"], c["generated"], c["distinct"]
+        ctx.states += r.distinct
+        ctx.transitions += r.generated
+        ctx.tlc_runs.append({"module": "Room_gen", "cfg": cfg, "generated": r.generated, "distinct": r.distinct,
+                             "records": len(r.records), "wall_s": 0, "violated": None, "mode": "exhaustive (cached run)"})
+        ctx.log("TLC Room_gen/%s: CACHED run (VERIF_ROOM_CACHE): %d distinct, %d records" % (cfg, r.distinct, len(r.records)))
+        return r
+    r = ctx.tlc("Room_gen", cfg, **kw)
+    os.makedirs(cdir, exist_ok=True)
+    tmp = path + ".%d.tmp" % os.getpid()
+    with open(tmp, "wb") as f:
+        pickle.dump({"records": r.records, "generated": r.generated, "distinct": r.distinct}, f)
+    os.replace(tmp, path)
+    return r
 
 
 def generate(ctx, on_batch=None):
@@ -85,13 +156,15 @@ def generate(ctx, on_batch=None):
     from concurrent.futures import ThreadPoolExecutor
     d = ctx._spec_dir()
     jobs = []
-    for n, plan in enumerate(plans(ctx.tier)):
+    for n, plan in enumerate(plans(ctx.tier, ctx.seed)):
         start, ver, mf, ts, idd, tri, dis = plan[:7]
         ff = plan[7] if len(plan) > 7 and plan[7] is not None else (10 if start in (3, 7) else 5)
         addl = plan[8] if len(plan) > 8 else "{}"
+        spells = plan[9] if len(plan) > 9 else '{"int"}'
+        pads = plan[10] if len(plan) > 10 else "{}"
         cfg = "Room_gen_%s_%d.cfg" % (ctx.tier, n)
         with open(os.path.join(d, cfg), "w") as f:
-            f.write(cfg_text(start, ver, mf, ts, idd, triples=tri, forkfrom=ff, dishonest=dis, addl=addl))
+            f.write(cfg_text(start, ver, mf, ts, idd, triples=tri, forkfrom=ff, dishonest=dis, addl=addl, spells=spells, pads=pads))
         jobs.append(cfg)
     seen = set()
     out = []
@@ -107,7 +180,7 @@ def generate(ctx, on_batch=None):
 
     if ctx.tier == "quick":
         with ThreadPoolExecutor(max_workers=4) as ex:
-            results = list(ex.map(lambda cfg: ctx.tlc("Room_gen", cfg, timeout=3000, workers=max(2, ctx.workers // 4)), jobs))
+            results = list(ex.map(lambda cfg: _tlc(ctx, cfg, timeout=3000, workers=max(2, ctx.workers // 4)), jobs))
         for r in results:
             out += fresh(r.records)
         if on_batch:
@@ -115,7 +188,7 @@ def generate(ctx, on_batch=None):
             return []
         return out
     for cfg in jobs:
-        r = ctx.tlc("Room_gen", cfg, timeout=6000)
+        r = _tlc(ctx, cfg, timeout=6000)
         new = fresh(r.records)
         r.records = None
         if on_batch:
